@@ -69,30 +69,37 @@ def contracts():
     return d
 
 
-def add_core_items(u, stub=(), verify=False):
+def add_core_items(u, stub=(), verify=False, skip_existing=False):
     """Emit the fpdec-core kernel items into unit `u`.  Outside the home unit (`core_kernel`)
     the kernel functions appear with the same contracts as external_body stubs: their bodies
-    are verified in the home unit, which is part of every property that depends on them."""
+    are verified in the home unit, which is part of every property that depends on them.
+    skip_existing: only add what the unit does not have yet (lib/autostub.py)."""
     cs = contracts()
     if not verify:
         stub = list(cs)
     import runner
     src_core = runner.load_sources(('core',))['core']
-    u.item('core', 'rounding::enum RoundingMode')
-    u.raw(R5_DEFAULT, 'R5')
-    # R5 trust anchors: the thread_local read/write and its initial value are exactly these texts
-    u.pin('core', 'rounding::impl Default for RoundingMode::default', sha='45f9d5092fff7a59')
-    u.pin('core', 'rounding::impl RoundingMode::set_default', sha='372a97e79b7e696e')
-    u.pin('core', 'rounding::const DFLT_ROUNDING_MODE', contains='fn __rust_std_internal_init_fn() -> RefCell<RoundingMode> { RefCell::new(RoundingMode::RoundHalfEven) }')
-    u.item('core', 'const MAX_N_FRAC_DIGITS')
-    u.item('core', 'powers_of_ten::const POWERS_OF_10')
+    have = set(e.key for e in u.entries) if skip_existing else set()
+
+    def item(k):
+        if k not in have:
+            u.item('core', k)
+    item('rounding::enum RoundingMode')
+    if 'R5' not in have:
+        u.raw(R5_DEFAULT, 'R5')
+        # R5 trust anchors: the thread_local read/write and its initial value are exactly these texts
+        u.pin('core', 'rounding::impl Default for RoundingMode::default', sha='45f9d5092fff7a59')
+        u.pin('core', 'rounding::impl RoundingMode::set_default', sha='372a97e79b7e696e')
+        u.pin('core', 'rounding::const DFLT_ROUNDING_MODE', contains='fn __rust_std_internal_init_fn() -> RefCell<RoundingMode> { RefCell::new(RoundingMode::RoundHalfEven) }')
+    item('const MAX_N_FRAC_DIGITS')
+    item('powers_of_ten::const POWERS_OF_10')
     for k in ['powers_of_ten::ten_pow', 'powers_of_ten::checked_ten_pow', 'powers_of_ten::mul_pow_ten',
               'powers_of_ten::checked_mul_pow_ten', 'adjust_coeffs', 'checked_adjust_coeffs',
               'i128_div_mod_floor', 'rounding::round_quot', 'rounding::i128_div_rounded']:
         c = cs[k]
         if k in stub:
             c.stub = True
-        if k not in src_core:
+        if k not in src_core or k in have:
             # a helper that no longer exists has no callers either (the crate would not compile): nothing to prove
             continue
         u.fn('core', k, c)
